@@ -43,7 +43,7 @@ func init() {
 		MaxSteps:     60000,
 		YieldFiles:   []string{"stats/collector.go"},
 		QuickRuns:    12000,
-		ThoroughSecs: 600,
+		ThoroughSecs: 400,
 		Rule: "one run = generated scripts for 2–6 recorder tasks (≤ 20 sessions each: TCP / UDP with both halves, anonymous and up to 6 named users, 1–2 servers) " +
 			"and 1–2 observer tasks (≤ 20 operations each: Snapshot, SnapshotAndReset, GET stats with/without clear, GET user, POST user) under one seeded schedule with " +
 			"statement-level pre-emption inside stats/collector.go; non-trivial = at least two distinct users (anonymous counts) recorded traffic AND " +
